@@ -278,6 +278,10 @@ func tselect(c, a, b *Term) *Term {
 			return b
 		}
 	}
+	// |x| in if-form: select(x < 0, -x, x)
+	if (c.Op == "lt" || c.Op == "le") && c.Args[1].String() == "0" && b.String() == c.Args[0].String() && a.String() == tmul(tconst(-1), b).String() {
+		return mk("abs", "", b)
+	}
 	// min / max in if-form
 	if c.Op == "lt" || c.Op == "le" {
 		x, y := c.Args[0].String(), c.Args[1].String()
@@ -305,6 +309,10 @@ type termEnv struct {
 	// pathPred maps a block to the predecessor it was entered from (tree unfolding)
 	pathPred    map[*ssa.BasicBlock]*ssa.BasicBlock
 	forceInline map[*ssa.Function]bool
+	// inside a constructor: loads of fields of the object under construction are forwarded
+	// to the terms already stored there
+	ctorAlloc ssa.Value
+	ctorInfo  *ctorInfo
 }
 
 // isPureHelper: small, loop-free, no stores, no calls except to other pure helpers / builtins.
@@ -421,6 +429,7 @@ func (e *termEnv) useCtor(T *types.Named, ctor *ssa.Function) *ctorInfo {
 			}
 		}
 	}
+	ce.ctorAlloc, ce.ctorInfo = alloc, ci
 	for _, b := range ctor.Blocks {
 		for _, in := range b.Instrs {
 			st, ok := in.(*ssa.Store)
@@ -645,6 +654,11 @@ func (e *termEnv) fieldTerm(base ssa.Value, field int) *Term {
 	if p, ok := bt.Underlying().(*types.Pointer); ok {
 		bt = p.Elem()
 	}
+	if e.ctorAlloc != nil && base == e.ctorAlloc && e.ctorInfo != nil {
+		if t, ok := e.ctorInfo.Stores[field]; ok {
+			return t
+		}
+	}
 	if n, ok := bt.(*types.Named); ok {
 		if ci, ok := e.recvOf[n]; ok && !ci.Mutable[field] {
 			if _, basic := st.Field(field).Type().Underlying().(*types.Basic); basic {
@@ -659,6 +673,24 @@ func (e *termEnv) fieldTerm(base ssa.Value, field int) *Term {
 				return tleaf("ctor-" + t.Name)
 			}
 			return tleaf("obj:" + typeShort(st.Field(field).Type()))
+		}
+	}
+	// struct parameters passed by value are spilled to a local: name the field after the parameter
+	if al, ok := base.(*ssa.Alloc); ok {
+		var only *ssa.Store
+		n := 0
+		if refs := al.Referrers(); refs != nil {
+			for _, rf := range *refs {
+				if st2, ok := rf.(*ssa.Store); ok && st2.Addr == ssa.Value(al) {
+					only = st2
+					n++
+				}
+			}
+		}
+		if n == 1 {
+			if p, ok := only.Val.(*ssa.Parameter); ok {
+				return tleaf(typeShort(base.Type()) + "." + st.Field(field).Name() + "@" + e.termOf(p).String())
+			}
 		}
 	}
 	bterm := e.termOf(base)
@@ -1115,4 +1147,43 @@ func calleeName(ci ssa.CallInstruction) string {
 		return callee.Name()
 	}
 	return "dynamic"
+}
+
+// Term evaluates v in the context of the path: phis take the value of the edge the path came
+// through, and loads of local cells (named results spilled because of defer) take the value of
+// the last store on the path.
+func (p *Path) Term(e *termEnv, v ssa.Value) *Term {
+	ce := e.child()
+	ce.depth = e.depth
+	for k, t := range e.bind {
+		ce.bind[k] = t
+	}
+	for _, b := range p.Blocks {
+		for _, in := range b.Instrs {
+			phi, ok := in.(*ssa.Phi)
+			if !ok {
+				break
+			}
+			if ed, ok := p.PhiBind[phi]; ok {
+				ce.bind[phi] = ce.termOf(ed)
+			}
+		}
+	}
+	// cells: last store on the path
+	last := map[ssa.Value]*ssa.Store{}
+	for _, in := range p.Instrs {
+		if st, ok := in.(*ssa.Store); ok {
+			if al, ok := st.Addr.(*ssa.Alloc); ok {
+				last[al] = st
+			}
+		}
+	}
+	if u, ok := v.(*ssa.UnOp); ok && u.Op == token.MUL {
+		if al, ok := u.X.(*ssa.Alloc); ok {
+			if st, ok := last[al]; ok {
+				return ce.termOf(st.Val)
+			}
+		}
+	}
+	return ce.termOf(v)
 }
